@@ -58,6 +58,10 @@ CHECKS = {
          "The gts binary is built from the tree and run hermetically. Alphabet: ~170 invocations covering all 19 cached subcommands, every boolean option toggled, valued options at two values, secondary inputs at two contents, stdin among two records, a multi-record stream, garbage, a truncated record and FASTA, stdout and -o outputs. Level 1: every invocation on the empty cache; level 2: every ordered pair (includes warm repeats and failed-then-repeated); levels 3..4: breadth-first inside command families, de-duplicated on a hash of the directory state. On every transition stdout, the -o file and the exit status must equal those of the same invocation with --no-cache. A vacuity guard counts same-command pairs whose uncached outputs differ.",
          "The alphabet is a menu, not the full option product; stderr is not compared.",
          "DESIGN.md §5 C14"),
+ "C15": (MC, "exhaustive enumeration of (command, options, locator) over a multi-record input through the real gts binary; label-tracking oracle",
+         "The gts binary built from the tree processes a 12-record input (12 uniquely labelled complement-invariant residues each; tables with overlapping, nested, duplicate, unsorted, joined and complement-strand features; linear and circular) for every locator assembled from points, ranges, complement ranges and selectors matching 0..3 features x 9 (quick) / 14 (thorough) modifiers kept in range x {delete, delete -e, insert, insert -e, infix, infix -e, split, rotate, extract, extract -v} x {GenBank, FASTA output} plus extract with two locators. The oracle follows every label: union of regions deleted exactly; one guest copy per located region at its 5' position in input coordinates; pieces concatenate to the input (circular: a rotation starting at a cut) with boundaries exactly at located positions; first located position at index 0; one record per distinct region in order, reverse strand reversed; -v the unlocated stretches; every surviving feature still denotes its residues.",
+         "Regions come from the library's AsLocator (C08). Split may cut a non-zero-length region at either end; extract -v may also cut at zero-length located sites.",
+         "DESIGN.md §5 C15"),
  "C16": (MC, "exhaustive enumeration of every sequence length 0..N and every single-byte mutation of short blocks through NewOrigin/Origin/scanner (LF and CRLF) and, by overlay export, the two internal ORIGIN reader paths",
          "Every length 0..1300 (quick) / 0..12000 (thorough) with residues cycling through all printable bytes: the block equals an independently written layout, Len() before and after decoding equals n, decoding restores the residues, re-formatting is stable, the closed-form size arithmetic agrees with the block, and a record carrying the block is read with identical residues through the fast (LF) and slow (CRLF) reader paths. For every length <=70 (quick) / <=130 (thorough) every offset of the block x 9 replacement bytes: both line-end variants agree, and validateOrigin and slowGenBankOriginParser (exported into the checker by a build overlay, nothing committed to /repo) agree in verdict and output.",
          "If the unexported names disappear the overlay build falls back and the internal sub-check is reported as skipped in the evidence; seqio parsing is serialised (pars combinators are not goroutine-safe).",
